@@ -103,13 +103,17 @@ def coq_stage(pid, tier):
 
 
 # ----------------------------------------------------------------------------- build stage
-def build_stage():
+def build_stage(race=False):
     rc, out = sh(["make", "-s", "model"], 1800)
     if rc != 0:
         return "model build failed:\n" + out[-3000:]
     rc, out = sh(["make", "-s", "harness"], 1200, env=GOENV)
     if rc != 0:
         return "harness build failed (the implementation no longer offers what the hooks or the harness use):\n" + out[-3000:]
+    if race:
+        rc, out = sh(["make", "-s", "harness-race"], 1800, env=GOENV)
+        if rc != 0:
+            return "race-detector harness build failed:\n" + out[-3000:]
     return None
 
 
@@ -128,14 +132,16 @@ def run_lines(binary_cmd, lines, timeout, env=None):
 
 
 def run_impl(fam, lines, timeout=600):
-    cmd = [HARNESS, "run", fam]
-    out = run_lines(cmd, lines, timeout, env=GOENV)
+    F = families.FAMILIES[fam]
+    cmd = [F.get("binary", HARNESS), "run", fam]
+    env = dict(GOENV, **F.get("env", {}))
+    out = run_lines(cmd, lines, timeout, env=env)
     if out is not None:
         return out
     # isolate crashing / hanging cases
     res = []
     for l in lines:
-        o = run_lines(cmd, [l], 60, env=GOENV)
+        o = run_lines(cmd, [l], 120, env=env)
         res.append(o[0] if o else '("CRASH")')
     return res
 
@@ -249,7 +255,7 @@ def check_property(pid, tier, seed):
     known_lines = []
     notes = []
     coq = coq_stage(pid, tier)
-    build_err = build_stage()
+    build_err = build_stage(race=any(families.FAMILIES[f].get("binary") for f, _, _ in P["families"]))
     cov = {"evaluations": 0, "distinct_nontrivial": 0, "samples": [], "families": {}, "histograms": {}}
     distinct = set()
     fam_ok = {}
